@@ -133,7 +133,7 @@ class Gen:
     def document(self):
         r = self.rng
         body = ''.join(self.node(1) for _ in range(r.randint(1, 4)))
-        root_attr = r.choice(['', '', ' fill="red"', ' width="20" height="20"', ' stroke="blue"'])
+        root_attr = r.choice(['', '', ' fill="red"', ' width="20" height="20"', ' stroke="blue"', ' opacity="0.5"', ' fill-opacity="0.5" stroke-width="2"', ' style="fill:green"'])
         xml_decl = '<?xml version="1.0" encoding="UTF-8"?>\n' if r.random() < self.p_noise else ''
         return (f'{xml_decl}<svg xmlns="{SVGNS}" xmlns:xlink="{XL}" viewBox="0 0 20 20"{root_attr}><defs>{"".join(self.defs)}</defs>{body}</svg>')
 
